@@ -9,7 +9,7 @@ code and the model agree with each other but not with Prolog.
 
 Not comparable (skipped, counted): definitions chained by a second load of the same predicate (a cut
 in one chained definition does not cut the next: yldprolog's documented behaviour, not Prolog's),
-registered Python predicates, clear, queries that are closed or abandoned early, evaluate_bounded,
+registered Python predicates that are variadic, raise or are registered after the first query, clear, queries that are closed or abandoned early, evaluate_bounded,
 loads while a query is suspended, terms only the grammar has (numeral-named structures, a/1).
 """
 from .common import Sym, sx
@@ -70,6 +70,16 @@ def _qterm(t):
     raise Unsupported(k)
 
 
+def _rterm(t):
+    """row of a Python predicate (model term with row-local variable numbers) -> oracle input term"""
+    k = str(t[0])
+    if k == 'v':
+        return ('V', 'R%d' % t[1])
+    if k == 'f':
+        return ('F', t[1], [_rterm(a) for a in t[2:]])
+    return _qterm(t)
+
+
 def _out(t):
     k = t[0]
     if k == 'v':
@@ -124,6 +134,15 @@ def plan(ops):
                 if key not in defs:
                     order.append(key)
                 defs[key] = groups[key]
+        elif k == 'regpy':
+            # a registered Python predicate is meant to be interchangeable with the facts it enumerates (C20)
+            _, name, arity, rows, raise_at, style, yv = op
+            if started or arity is None or raise_at is not None:
+                raise Unsupported('python predicate: variadic, raising or registered late')
+            key = (str(name), arity)
+            if key not in defs:
+                order.append(key)
+            defs[key] = [(str(name), [_rterm(t) for t in terms], 'tru') for (nv, terms) in rows]
         elif k == 'query':
             started = True
             if op[2][0] != 'all':
